@@ -74,7 +74,11 @@ def cli_argv(o, target):
     return a + target
 
 
-def action_env(o, sep, out_file=None, out_dir=None, samples=None, truth="true"):
+TRUTHY = ["true", "1", "yes", "True", "TRUE", "YES", "Yes"]
+FALSY = ["false", "0", "no", "False", "off", "", "FALSE"]
+
+
+def action_env(o, sep, out_file=None, out_dir=None, samples=None, truth="true", falsy="false"):
     e = {}
     if o.get("protocol") is not None:
         e["INPUT_PROTOCOL"] = str(o["protocol"])
@@ -88,9 +92,9 @@ def action_env(o, sep, out_file=None, out_dir=None, samples=None, truth="true"):
         e["INPUT_MUTATORS"] = sep.join(o["mutators"])
     if o.get("rate") is not None:
         e["INPUT_MUTATION_RATE"] = repr(o["rate"])
-    e["INPUT_UNSAFE_MUTATIONS"] = truth if o.get("unsafe") else "false"
-    e["INPUT_ALLOW_EXT"] = truth if o.get("ext") else "false"
-    e["INPUT_ALLOW_BUFFER"] = truth if o.get("buf") else "false"
+    e["INPUT_UNSAFE_MUTATIONS"] = truth if o.get("unsafe") else falsy
+    e["INPUT_ALLOW_EXT"] = truth if o.get("ext") else falsy
+    e["INPUT_ALLOW_BUFFER"] = truth if o.get("buf") else falsy
     if out_file:
         e["INPUT_OUTPUT_FILE"] = out_file
     if out_dir:
@@ -425,12 +429,12 @@ def check_action(ctx, opts, tagp="a"):
         files = {}
         if mode == "file":
             path = os.path.join(ctx.tmp, tag + ".pkl")
-            env = dict(base_env, **action_env(o, sep, out_file=path, truth=["true", "1", "yes", "True"][i % 4]))
+            env = dict(base_env, **action_env(o, sep, out_file=path, truth=TRUTHY[i % len(TRUTHY)], falsy=FALSY[i % len(FALSY)]))
             r = subprocess.run(["bash", script], env=env, stdout=subprocess.PIPE, stderr=subprocess.PIPE, text=True)
             files["out"] = open(path, "rb").read() if os.path.isfile(path) else None
         elif mode == "dir":
             d = os.path.join(ctx.tmp, tag)
-            env = dict(base_env, **action_env(o, sep, out_dir=d, samples=3))
+            env = dict(base_env, **action_env(o, sep, out_dir=d, samples=3, truth=TRUTHY[(i + 3) % len(TRUTHY)], falsy=FALSY[(i + 2) % len(FALSY)]))
             r = subprocess.run(["bash", script], env=env, stdout=subprocess.PIPE, stderr=subprocess.PIPE, text=True)
             if os.path.isdir(d):
                 for name in os.listdir(d):
@@ -646,7 +650,7 @@ def check_c13(tier, seed, paths):
         seeded = [o for o in opts if o.get("seed") is not None]
         check_cli(ctx, seeded)
         batch_opts = seeded[::7] if not thorough else seeded[::3]
-        check_batch(ctx, batch_opts, [1, 7] if not thorough else [1, 7, 64], [1, 16] if not thorough else [1, 2, 3, 16])
+        check_batch(ctx, batch_opts, [1, 7] if not thorough else [0, 1, 7, 64], [1, 16] if not thorough else [1, 2, 3, 16])
         check_batch_faults(ctx)
         check_overwrite(ctx)
         action_opts = [o for o in seeded if not (o.get("mutators") and len(o["mutators"]) > 3)]
